@@ -50,6 +50,16 @@ CHECKS.update({
                      "and all (pairs of) default tokens of the look-alike universe; on the real code every case must call the constructor "
                      "exactly once, bind present fields to loaded values, and leave absent fields typed-equal (identical for singletons, "
                      "fresh for factories) to the declared default, for plain / dataclass / attrs / NamedTuple classes."),
+    "C15": dict(technique="TLA+ spec PyTypes.tla (hints as written, Denote, rewriting machine) model-checked by TLC: preserving rewrites keep "
+                          "the denotation; every transition replayed on normalize_type, loaders, dumpers and predicates",
+                category="model_checking", design_ref="6/C15",
+                note="trusts: gamma's hint construction (vf/props/c15.py); behavioural equivalence judged on a fixed probe vector; bounded "
+                     "rewrite depth (2 quick / 3 thorough) over 25 seed hints",
+                text="TLC checks that every rewrite the documentation calls meaning-preserving keeps Denote and that denotations are canonical, "
+                     "and enumerates all transitions h -> h' reachable within the bound at every position; on the real code a preserving "
+                     "transition must give equal normal forms with equal hashes and equivalent loaders, dumpers and predicates (with fresh "
+                     "and warm lru_cache), an edit must give unequal normal forms, normalisation must be idempotent and bare generics get "
+                     "the documented implicit parameters."),
     "C19": dict(technique="TLA+ spec Layout.tla treats names/keys as uninterpreted tokens (model invariant under renaming); the TLC-enumerated "
                           "programs are replayed under hostile name/key dictionaries and must reproduce the model's outcomes; canary for execution",
                 category="model_checking", design_ref="6/C19",
